@@ -55,7 +55,15 @@ impl EventStore {
         }
 
         // Memory map it
-        let event_map = unsafe { MmapAppend::new(&event_map_file, new)? };
+        let mut event_map = unsafe { MmapAppend::new(&event_map_file, new)? };
+
+        // A file that was sized but whose end marker was never written (the process was
+        // killed between growing the file and initialising the map) still holds zero where
+        // the marker belongs. A valid marker is never below the header, so initialise now.
+        if event_map.get_end() < mmap_append::HEADER_SIZE {
+            drop(event_map);
+            event_map = unsafe { MmapAppend::new(&event_map_file, true)? };
+        }
 
         Ok(EventStore {
             event_map_file,
